@@ -141,6 +141,16 @@ func runC06(w *World) {
 	expiryFrom := recv[len(recv)-1]
 	established := false
 	if stage != 0 {
+		if hs > 0 && hs <= 180 && w.Chance(1, 3, "late-handshake-keepalive") {
+			// the remote takes its time before its first KEEPALIVE: the hold time
+			// then counts from that KEEPALIVE, not from the OPEN
+			w.Sleep(time.Duration(w.Range(hs*300, hs*900, "latekams")) * time.Millisecond)
+			w.Probe("handshake-keepalive-delayed")
+			if c.LocalClosed() {
+				w.Violate("C06/expiry/early-OpenConfirm", "the session was torn down %v after the remote's OPEN while waiting for its KEEPALIVE (hold time %v)", w.Now()-recv[len(recv)-1], H)
+				return
+			}
+		}
 		deliver(KeepaliveFrame())
 		if !w.WaitUntil("c06.est", time.Minute, func() bool { return p.Plug.NEst == nest0+1 }) {
 			w.Violate("C06/not-established", "hold times (%d,%d): no OnEstablished after a complete OPEN/KEEPALIVE exchange", lh, rh)
@@ -154,7 +164,11 @@ func runC06(w *World) {
 		if wp > 0 && hs == 0 {
 			// zero hold time: local writes must not start any periodic KEEPALIVEs
 			for i, n := 0, w.Range(1, 3, "zwrites"); i < n; i++ {
-				writer.WriteUpdate([]byte{0, 0, 0, byte(i)})
+				call := w.CallAsync("WriteUpdate", func() error { return writer.WriteUpdate([]byte{0, 0, 0, byte(i)}) })
+				if !w.WaitUntil("c06.zwrite", 5*time.Second, call.Done) {
+					w.Violate("C06/zero-holdtime/writeupdate-blocked", "negotiated hold time 0: WriteUpdate did not return within 5 s")
+					return
+				}
 				w.Sleep(time.Duration(w.Range(0, 2000, "zwms")) * time.Millisecond)
 			}
 			w.Probe("zero-hold-local-writes")
@@ -289,8 +303,13 @@ func runC06(w *World) {
 			return
 		}
 		nf := c.NFrames()
-		if err := writer.WriteUpdate([]byte{1, 1, 1, 1}); err != nil || c.NFrames() != nf+1 {
-			w.Violate("C06/zero-holdtime/updates-stop", "hold time 0: WriteUpdate after 24 h of silence failed (%v)", err)
+		wcall := w.CallAsync("WriteUpdate", func() error { return writer.WriteUpdate([]byte{1, 1, 1, 1}) })
+		if !w.WaitUntil("c06.zwrite2", 5*time.Second, wcall.Done) {
+			w.Violate("C06/zero-holdtime/writeupdate-blocked", "negotiated hold time 0: WriteUpdate after 24 h of silence did not return within 5 s")
+			return
+		}
+		if wcall.Err != nil || c.NFrames() != nf+1 {
+			w.Violate("C06/zero-holdtime/updates-stop", "hold time 0: WriteUpdate after 24 h of silence failed (%v)", wcall.Err)
 			return
 		}
 		w.Sleep(time.Hour)
